@@ -66,6 +66,9 @@ def engine(pid, what, ref):
 
 engine("C01", "Worker limit and distinct worker slots per step.", "5/C01")
 engine("C03", "Queued work runs at full capacity; idle announced only when nothing can happen without external input.", "5/C03")
+engine("C05", "Retry budgets: executions = max(n,1), non-retryable once, stop_after_delay by real elapsed time, retry_info numbering, reported attempts/elapsed.", "5/C05")
+engine("C06", "k-th retry starts no earlier than the documented delay of the wait strategy (tenacity indexing).", "5/C06")
+engine("C08", "Exhausted failures go to the owning @catch_error handler within max_recoveries, same with validation disabled.", "5/C08")
 engine("C09", "collect_events lists: as expected, each event in at most one list, no full set lost.", "5/C09")
 engine("C10", "wait_for_event: at most one completion/timeout per wait, right type and requirements, waiter_event once.", "5/C10")
 engine("C04", "One outcome, one matching terminal event, stream consumer terminates.", "5/C04")
